@@ -43,6 +43,9 @@ type Member struct {
 	Type  *Type
 	Align int // @align attribute (0 = none)
 	Size  int // @size attribute (0 = none)
+	// AttrSuffix is appended to the @align / @size arguments ("", "u" or "i": the arguments are const-expressions of
+	// type i32 or u32, so suffixed literals are valid WGSL)
+	AttrSuffix string
 }
 
 var (
